@@ -483,6 +483,19 @@ theorem active_after_provision_partial (c : CAConf) (b : Built) (hb : provisionP
       (by decide) (some c)) b hb
   exact this hx
 
+/-- **no session resumption into or out of a client-auth policy, for ALL blocks**: whatever the
+    `client_authentication` block contains (even an empty one), the policy's tls.Config has session
+    tickets switched off — so with the session ticket keys shared by all policies (tls app
+    `session_tickets`) a session established under another policy, whose client certificate
+    crypto/tls would NOT re-verify against this policy's trust settings nor pass to its verifiers,
+    can never be resumed here; and a policy without the block keeps them on. -/
+theorem client_auth_policy_never_resumes (c : Option CAConf) (b : Built) (hb : provisionPolicyCA c = some b) :
+    b.ticketsOff = true ↔ c ≠ none := by
+  refine whenBuilt_elim (P := fun b => b.ticketsOff = true ↔ c ≠ none) ?_ b hb
+  refine forall_conf (fun c => whenBuilt c fun b => b.ticketsOff = true ↔ c ≠ none) ?_ (by decide) c
+  intro caRaw tca pem leaf ver mode
+  cases caRaw <;> cases tca <;> cases pem <;> cases leaf <;> cases ver <;> cases mode <;> decide
+
 /-- **the default, end to end of the glue**: for a server whose policies carry arbitrary
     `client_authentication` blocks (all of which provision), and no explicit `strict_sni_host`,
     strict SNI-Host is in effect iff some policy's built `tls.Config` asks clients for a
